@@ -16,7 +16,7 @@ pub fn meta() -> Meta {
     Meta {
         id: "C11",
         level: "model_checking",
-        rule: "(1)+(2) configuration sweep through the real CLI with real thread pools: subcommand in {build, build --proportion-reads 0.5 (two records per file; n in {9,10,21,70}), align, map aln, map vcf, distance, lo with reference, lo without} x input kind {.skf, sequence files} where accepted x sample count in {2,9,10,11,19,20,21,29,30,31} (both sides of every step of the 10-samples-per-thread rule; build additionally 69,70,149,150 for split depth 3 and 4) x thread counts (quick: 1,2,3,4,8,16 and all 1..16 at n=10 and 21; thorough: all 1..16) x hash seeds {s, s+1} (thorough 4): exit status 0 whenever the 1-thread run exits 0 and output equal to the 1-thread/seed-s output — byte-exact for map, distance and lo with reference, as a table for build (every sample in its input column), as a column multiset for align, as a column multiset modulo complement for reference-free lo; plus `ska lo -r` under 8 (thorough 24) hash seeds x threads 1,2,4 on (a) a triallelic SNP and (b) a reference with a three-copy repeat and junction SNPs: all outputs identical. (3) schedule exploration of the only racy structure (DashMap neighbour vectors in skalo::build_graph): an explicit-state model enumerates every interleaving of the per-row push operations of W=2,3 workers pulling rows from a shared iterator and collects the set R of reachable final graphs; every element of R is fed through the real identify_good_kmers + build_variant_groups and must give the same, planted result; real multi-threaded build_graph runs must land inside R; 1-thread runs on permuted rows must equal the model's result for that item order. states/transitions are those of the interleaving model; traces_validated = elements of R replayed through the real downstream code + real runs checked for membership.".into(),
+        rule: "(1)+(2) configuration sweep through the real CLI with real thread pools: subcommand in {build, build --proportion-reads 0.5 (two records per file; n in {9,10,21,70}), align, map aln, map vcf, distance, lo with reference, lo without} x input kind {.skf, sequence files} where accepted x sample count in {2,9,10,11,19,20,21,29,30,31} (both sides of every step of the 10-samples-per-thread rule; build additionally 69,70,149,150 for split depth 3 and 4) x thread counts (quick: 1,2,3,4,8,16 and all 1..16 at n=10 and 21; thorough: all 1..16) x hash seeds {s, s+1} (thorough 4): exit status 0 whenever the 1-thread run exits 0 and output equal to the 1-thread/seed-s output — byte-exact for map, distance and lo with reference, as a table for build (every sample in its input column), as a column multiset for align, as a column multiset modulo complement for reference-free lo; plus `ska lo -r` under 8 (thorough 24) hash seeds x threads 1,2,4 on (a) a triallelic SNP, (b) a reference with a three-copy repeat and junction SNPs and (c) pairs of linked SNPs at distances 1, 2, k-2, k-1, k, k+1, 2k-2: all outputs identical. (3) schedule exploration of the only racy structure (DashMap neighbour vectors in skalo::build_graph): an explicit-state model enumerates every interleaving of the per-row push operations of W=2,3 workers pulling rows from a shared iterator and collects the set R of reachable final graphs; every element of R is fed through the real identify_good_kmers + build_variant_groups and must give the same, planted result; real multi-threaded build_graph runs must land inside R; 1-thread runs on permuted rows must equal the model's result for that item order. states/transitions are those of the interleaving model; traces_validated = elements of R replayed through the real downstream code + real runs checked for membership.".into(),
         assumptions: vec![
             "rayon's internal scheduling is not explored; outside skalo there is no shared mutable state (fork-join over disjoint slices, ordered collection), and the sweep would expose a violation of that argument as an output difference".into(),
             "each DashMap entry operation is atomic (the entry guard holds the shard lock for the statement)".into(),
@@ -217,14 +217,33 @@ pub fn run_sweep(ctx: &Ctx, rep: &mut Report) {
     // reference-mode ska lo under many hash seeds: (a) a triallelic SNP in unique sequence, (b) a reference with a
     // three-copy repeat and junction SNPs. All outputs must be identical whatever the hash seed or thread count.
     if !rep.capped {
-        for fam in ["triallelic", "three-copy repeat"] {
+        for fam in ["triallelic", "three-copy repeat", "linked SNP pairs"] {
             idx += 1;
             if !ctx.mine(idx) {
                 continue;
             }
             let k = 21usize;
             let n = 6usize;
-            let (reference, samples): (Vec<u8>, Vec<Vec<Vec<u8>>>) = if fam == "triallelic" {
+            let (reference, samples): (Vec<u8>, Vec<Vec<Vec<u8>>>) = if fam == "linked SNP pairs" {
+                // pairs of SNPs carried by the same samples (one bubble), at distances 1, 2, k-2, k-1, k, k+1, 2k-2, each
+                // pair at its own locus 6k apart
+                let dists = [1usize, 2, k - 2, k - 1, k, k + 1, 2 * k - 2];
+                let g = lo::ancestor(6 * k * (dists.len() + 1), k, ctx.seed + 97);
+                let smp = (0..n)
+                    .map(|i| {
+                        let mut s = g.clone();
+                        for (j, d) in dists.iter().enumerate() {
+                            if (i + j) % 2 == 0 {
+                                let p = 3 * k + j * 6 * k;
+                                s[p] = comp(s[p]);
+                                s[p + d] = comp(s[p + d]);
+                            }
+                        }
+                        vec![if i % 3 == 1 { rc_str(&s) } else { s }]
+                    })
+                    .collect();
+                (g, smp)
+            } else if fam == "triallelic" {
                 let g = lo::ancestor(12 * k, k, ctx.seed + 98);
                 let sites = [4 * k, 8 * k];
                 let smp = (0..n)
